@@ -103,3 +103,15 @@ def big(tier, rng):
             has = [0] * n
             has[p] = has[p + 1] = 1
             yield {"h": 1, "w": n, "grid": [given], "planted": [nums + has], "n_solutions": 1}
+    # boards with both sides >= 4 and one lone number seeing its whole row and column: the largest value a
+    # number can take (h + w - 2); the only rule-obeying grid has that single number
+    shapes = [(4, 4), (4, 5), (5, 4), (5, 6), (6, 4)] if th else [(4, 4), (4, 5), (5, 4)]
+    for (h, w) in shapes:
+        y, x = rng.randrange(h), rng.randrange(w)
+        given = [[-1] * w for _ in range(h)]
+        given[y][x] = h + w - 2
+        nums = [0] * (h * w)
+        nums[y * w + x] = h + w - 2
+        has = [0] * (h * w)
+        has[y * w + x] = 1
+        yield {"h": h, "w": w, "grid": given, "planted": [nums + has], "n_solutions": 1}
